@@ -2,10 +2,12 @@
 `math_table` signature scan, and complex-mode probe forms.
 
 In a complex kernel FFCx declares some names `double` (DataType.REAL) and others `double _Complex`
-(SCALAR) and picks `pow` vs `cpow` … from the dtype of args[0] only.  C converts complex → double
-silently.  `(dtypecert <strict> <kernel>)` evaluates the Lean certificate `dtypeCert`
-(lean/FfcxModel/LNodes/DtypeCert.lean); `FfcxProofs/C09Sound.lean` proves that a certified kernel
-never takes such a conversion on a value that is not real (`dtype_sound`: certificate ⇒ execT = exec).
+(SCALAR).  The C formatter uses the real `<math.h>` function iff NO argument of a MathFunction is SCALAR,
+the `<complex.h>` function otherwise, and refuses (RuntimeError) a function without a complex version on a
+SCALAR argument.  C converts complex → double silently.  `(dtypecert <strict> <kernel>)` evaluates the Lean
+certificate `dtypeCert` (lean/FfcxModel/LNodes/DtypeCert.lean); `FfcxProofs/C09Sound.lean` proves that a
+certified kernel never takes such a conversion on a value that is not real (`dtype_sound`: certificate ⇒
+execT = exec).
 
   check_dtype_certificates(chk, d, entries, scalar_types)   every kernel AST of the entries, optimised and
         unoptimised, for each scalar type (strict certificate for complex types, agreement-only for real
@@ -13,11 +15,14 @@ never takes such a conversion on a value that is not real (`dtype_sound`: certif
         numeric witness is searched (C kernel on complex data vs NumPy complex arithmetic) and reported
         through `chk.violation`.
   check_dtype_probes(chk, d)    own complex-mode forms: every math function on complex data, Real/Imag/Abs
-        temporaries, real functions of geometry …  (must pass) and the forms on which FFCx is known to
-        truncate (must FAIL the certificate; reported as violations with a numeric witness).
-  check_math_table(chk, d)      complete scan of `formatter.math_table`: for every handler name × scalar type
-        × dtype of args[0] the function really emitted by the C formatter is classified with the C99
-        <math.h>/<complex.h> signature table below and compared with the model (`truncatesArgs`, `callTy`).
+        temporaries, real functions of geometry … (must be certified AND match complex arithmetic);
+        `x[0]**(1+2j)` (formerly emitted as real `pow`: must now be certified and match); functions without a
+        complex version on complex arguments (must be REJECTED before C is emitted — accepted-and-truncating is
+        the violation); a REAL operand outside the real domain of `sqrt` (known finding).
+  check_math_table(chk, d)      complete scan of the formatter's function selection: for every handler name ×
+        scalar type × dtype combination of the arguments, the function really emitted by the C formatter (or its
+        refusal) is classified with the C99 <math.h>/<complex.h> signature table below and compared with the
+        model (`truncatesArgs`, `callTy`, `formatRejects`).
 
 Needs in Driver.lean:   import FfcxModel.Driver.Dtype   and   | "dtypecert" => Driver.handleDtypeCert args
 """
@@ -44,7 +49,9 @@ DTYPE_THEOREMS = [
     "Ffcx.LNodes.execG_id",
     "Ffcx.LNodes.dtype_sound_real_carrier",
     "Ffcx.LNodes.truncation_counterexample",
-    "Ffcx.LNodes.real_pow_complex_exponent_counterexample",
+    "Ffcx.LNodes.real_pow_complex_exponent_certified",
+    "Ffcx.LNodes.nested_call_counterexample",
+    "Ffcx.LNodes.rejected_call_example",
     "Ffcx.LNodes.gauss_lawful",
     "Ffcx.LNodes.dtypeCert_example",
     "Ffcx.LNodes.isReal_realVal",
@@ -103,24 +110,28 @@ _BESSEL = {"bessel_j", "bessel_y", "bessel_i", "bessel_k"}
 
 
 def _arg_combos(name):
-    """dtype tuples of the arguments to scan: every combination for binary functions (the table must depend on
-    args[0] only — a formatter that looks at another argument is caught by the mixed rows)."""
+    """dtype tuples of the arguments to scan: every combination for binary functions (the table must be the
+    complex one iff SOME argument is SCALAR — a formatter that decides otherwise is caught by the mixed rows)."""
     if name in _BESSEL:
-        return [("int", d) for d in ("real", "scalar")]
+        return [("int", d) for d in ("real", "scalar", "int")]
     if name in _TWO_ARGS:
-        return [(a, b) for a in ("real", "scalar") for b in ("real", "scalar", "int")]
-    return [("real",), ("scalar",)]
+        return [(a, b) for a in ("real", "scalar", "int") for b in ("real", "scalar", "int")]
+    return [("real",), ("scalar",), ("int",)]
 
 
 def _emitted(name, scalar_type, dts):
-    """Function name the REAL C formatter emits for MathFunction(name, args) with args of dtypes `dts`."""
+    """(function name the REAL C formatter emits for MathFunction(name, args) with args of dtypes `dts`, or None if
+    it refuses the node with a RuntimeError; the error text)."""
     import ffcx.codegeneration.lnodes as L
     from ffcx.codegeneration.C.formatter import Formatter
     D = {"real": L.DataType.REAL, "scalar": L.DataType.SCALAR, "int": L.DataType.INT}
     args = [L.LiteralInt(1) if (d == "int") else L.Symbol("ab"[i], D[d]) for i, d in enumerate(dts)]
     node = L.MathFunction(name, args)
-    txt = Formatter(np.dtype(scalar_type))(node)
-    return txt.split("(", 1)[0], node
+    try:
+        txt = Formatter(np.dtype(scalar_type))(node)
+    except RuntimeError as ex:
+        return None, str(ex)
+    return txt.split("(", 1)[0], None
 
 
 _ORDER = {"f": 0, "d": 1, "l": 2}
@@ -152,7 +163,7 @@ def _real_mode_strips_complex_nodes():
 
 def check_math_table(chk, d):
     """Complete scan.  Returns the list of rows (also summarised in chk.notes)."""
-    rows, latent, wider, folded = [], [], [], []
+    rows, rejected, wider, folded = [], [], [], []
     stripped = _real_mode_strips_complex_nodes()
     if not stripped:
         chk.disagree("math table: conj/real/imag reach LNodes in a real kernel (UFL's remove_complex_nodes expected)", {})
@@ -164,41 +175,54 @@ def check_math_table(chk, d):
                 if name in ("conj", "real", "imag"):
                     if not cplx:
                         continue      # cannot occur: stripped by UFL in real mode (checked above)
+                    if dt0 == "int":
+                        continue      # conj/real/imag of an INT operand: UFL folds these on literals; no INT-typed terminal is complex
                     if _folds(name, dt0):
                         folded.append(f"{name}({dt0})")
                         continue      # lnodes._math_function returns the operand / 0.0: no call is emitted
-                fn, node = _emitted(name, st, dts)
-                # node dtype = dtype of args[0] (Bessel: the order, a LiteralInt, so the table of the scalar type is used)
-                node_dt = dts[0]
+                fn, err = _emitted(name, st, dts)
                 any_scalar = "scalar" in dts
-                sig = C99.get(fn)
+                sig = C99.get(fn) if fn is not None else None
                 row = {"name": name, "scalar_type": st, "args": list(dts), "emitted": fn, "sig": sig}
                 rows.append(row)
                 chk.case("math_table_sig", f"{name}:{st}:{'/'.join(dts)}")
                 key = f"c09:mathtable:{name}:{st}"
+                r = d.ask(f"(dtypecert sig {name} {' '.join(dts)})")
+                model_trunc, model_ty, model_rejects = r[1] == "true", r[2], r[4] == "true"
+                if fn is None:
+                    # refused by the formatter: only a function without a complex version on a SCALAR argument in a
+                    # complex kernel may be refused
+                    rejected.append(f"{name}({'/'.join(dts)}) [{st}]")
+                    if not cplx:
+                        chk.violation(key, f"`{name}` is refused by the C formatter for the real scalar type {st}: {err}", row)
+                    elif not model_rejects:
+                        chk.disagree("math table: the C formatter refuses a call the model (`formatRejects`) accepts",
+                                     {"name": name, "scalar_type": st, "args": list(dts), "error": err, "model": r})
+                    continue
                 if sig is None:
                     chk.violation(key, f"math function `{name}` is emitted as `{fn}` for {st}: not a C99/POSIX function",
                                   {"name": name, "type": st, "emitted": fn})
                     continue
                 par, res, prec = sig
-                r = d.ask(f"(dtypecert sig {name} {node_dt})")
-                model_trunc = r[1] == "true"
-                model_ty = r[2]
                 if cplx:
                     # the model describes complex kernels (for real scalar types SCALAR and REAL are the same C type)
-                    real_table = (node_dt == "real")
+                    if model_rejects:
+                        chk.disagree("math table: the C formatter emits a call the model says it refuses (function without a complex "
+                                     "version on a SCALAR argument: C would drop the imaginary part)",
+                                     {"name": name, "scalar_type": st, "args": list(dts), "emitted": fn, "c99": sig, "model": r})
+                        continue
                     if model_trunc != (par == "real"):
                         chk.disagree("math table: model `truncatesArgs` disagrees with the C signature of the emitted function",
-                                     {"name": name, "scalar_type": st, "arg0_dtype": node_dt, "emitted": fn, "c99": sig, "model": r})
+                                     {"name": name, "scalar_type": st, "args": list(dts), "emitted": fn, "c99": sig, "model": r})
                     if (model_ty == "real") != (res == "real"):
                         chk.disagree("math table: model `callTy` disagrees with the C result type of the emitted function",
-                                     {"name": name, "scalar_type": st, "arg0_dtype": node_dt, "emitted": fn, "c99": sig, "model": r})
+                                     {"name": name, "scalar_type": st, "args": list(dts), "emitted": fn, "c99": sig, "model": r})
                     if par == "real" and any_scalar:
-                        # a function with double parameters listed in / falling through the complex table: harmless iff the
-                        # generator never hands it a SCALAR argument — decided per kernel by the certificate
-                        latent.append(f"{name}->{fn} ({st})")
-                    if par == "complex" and real_table:
-                        chk.violation(key, f"`{name}` on a REAL operand is emitted as complex `{fn}`", row)
+                        # independent of the model: a function with double parameters must never be emitted with a SCALAR argument
+                        chk.violation(key, f"`{name}` with a SCALAR argument is emitted as `{fn}`, whose parameters are real: "
+                                           "C drops the imaginary part silently", row)
+                    if par == "complex" and not any_scalar:
+                        chk.violation(key, f"`{name}` without any SCALAR operand is emitted as complex `{fn}`", row)
                 elif par != "real":
                     chk.violation(key, f"`{name}` is emitted as `{fn}` for {st}: complex function in a real kernel", row)
                 # precision: a NARROWER function loses digits (violation); a wider one (double `atan2`/`erf`/`jn`/`yn` in a
@@ -208,7 +232,7 @@ def check_math_table(chk, d):
                 elif _ORDER[prec] > _ORDER[_PREC[st]]:
                     wider.append(f"{name}->{fn} ({st})")
     chk.notes["dtype_math_table_rows"] = len(rows)
-    chk.notes["dtype_math_table_latent_real_param_in_complex_table"] = sorted(set(latent))
+    chk.notes["dtype_math_table_refused_in_complex_mode"] = sorted(set(rejected))[:60]
     chk.notes["dtype_math_table_wider_precision"] = sorted(set(wider))
     chk.notes["dtype_math_table_folded"] = sorted(set(folded))
     return rows
@@ -399,8 +423,9 @@ def _probe(which):
                                               + conditional(gt(imag(g), 0.1), real(f), 2.0) * g * conj(v) * ds,
             "bilinear_mixed": lambda: (real(k) * inner(grad(u), grad(v)) + 1j * imag(f) * inner(u, v) + sqrt(g) * inner(u, v)) * dx
                                       + abs(f) * exp(1j * x[0]) * inner(u, v) * ds,
-            # --- FFCx truncates: must FAIL the certificate ------------------------------------------
+            # --- formerly emitted as real `pow`: must now be certified and match complex arithmetic --------
             "pow_real_base_complex_exponent": lambda: x[0]**(1 + 2j) * f * conj(v) * dx,
+            # --- no complex version: must be REJECTED before any C is emitted -----------------------------
             "atan2_complex_constant": lambda: atan2(x[0], k) * f * conj(v) * dx,
             "erf_complex": lambda: erf(f) * conj(v) * dx,
             "besselj_complex": lambda: bessel_J(1, f) * conj(v) * dx,
@@ -413,24 +438,28 @@ def _probe(which):
 
 PROBES_OK = ["math_complex", "real_imag_abs", "pow_complex_base", "real_fn_of_geometry", "real_fn_of_real_parts",
              "conditional_real_parts", "bilinear_mixed"]
-# name -> (canonical finding key, one-line description)
-PROBES_TRUNCATING = {
+# name -> (canonical finding key, one-line description).  All keys stay armed on the repaired tree.
+# fixed by /repo c5f832c: the kernel must be certified AND equal complex arithmetic
+PROBES_FIXED = {
     "pow_real_base_complex_exponent": (
         "c09:dtype:real-pow-complex-exponent",
-        "complex mode: `x[0]**(1+2j)` is emitted as real `pow(x_c0, (1.0+I*2.0))` (table chosen from args[0] only): "
-        "the imaginary part of the exponent is dropped"),
+        "complex mode: `x[0]**(1+2j)` is emitted as real `pow(x_c0, (1.0+I*2.0))` (table chosen without looking at the "
+        "SCALAR exponent): the imaginary part of the exponent is dropped"),
+}
+# functions without a complex version on a complex argument: the form must be REJECTED (RuntimeError before C is emitted);
+# accepted-and-truncating is the violation
+PROBES_REJECTED = {
     "atan2_complex_constant": (
         "c09:dtype:atan2-complex-constant",
-        "complex mode: `atan2(x[0], k)` with a complex Constant k is emitted as `atan2(x_c0, c[0])`: Im(k) is dropped silently"),
+        "complex mode: `atan2(x[0], k)` with a complex Constant k is accepted and emitted as real `atan2(x_c0, c[0])`: Im(k) is dropped silently"),
     "erf_complex": (
         "c09:dtype:erf-complex-argument",
-        "complex mode: `erf(f)` of a complex coefficient is emitted as real `erf(w0)` (no complex table entry): Im(f) is dropped (F18)"),
+        "complex mode: `erf(f)` of a complex coefficient is accepted and emitted as real `erf(w0)` (no complex version): Im(f) is dropped (F18)"),
     "besselj_complex": (
         "c09:dtype:bessel-complex-argument",
-        "complex mode: `bessel_J(1, f)` of a complex coefficient is emitted as `jn(1, w0)`: Im(f) is dropped (F18)"),
+        "complex mode: `bessel_J(1, f)` of a complex coefficient is accepted and emitted as `jn(1, w0)`: Im(f) is dropped (F18)"),
 }
-
-
+PROBES_TRUNCATING = {**PROBES_FIXED, **PROBES_REJECTED}   # (all forms on which FFCx used to truncate)
 # outside the scope of the certificate AND of `dtype_sound` (hypothesis `fn_real_closed`: the real-table function agrees
 # with the complex one, i.e. returns a real): REAL operands outside the real domain of sqrt/ln/pow/acos/asin/…
 PROBES_DOMAIN = {
@@ -472,51 +501,90 @@ def _imag_insensitive(entry, scalar_type, seed):
     return out
 
 
-def check_dtype_probes(chk, d, scalar_type="complex128"):
-    ok_entries, bad_entries = probe_entries()
-    summary = check_dtype_certificates_quiet(chk, d, ok_entries, scalar_type)
-    res = {"ok_probes": summary, "truncating": {}}
-    for e in bad_entries:
-        name = e.name[len("dtype_"):]
-        key, what = PROBES_TRUNCATING[name]
-        try:
-            cases = kernels.cases_for_entry(e, pipeline.default_options(scalar_type=scalar_type))[0]
-        except BaseException as ex:
-            if isinstance(ex, (KeyboardInterrupt, SystemExit)):
-                raise
-            # rejected before code generation: nothing is truncated any more
-            chk.notes.setdefault("dtype_probe_rejected", []).append(f"{name}: {type(ex).__name__}")
-            continue
-        fails = []
+_REFUSAL = "is not supported for complex arguments"
+
+
+def _generates(entry, scalar_type):
+    """Run the whole generator incl. the C formatter (no C compiler).  Returns (True, None) or (False, error text)."""
+    import ffcx.compiler
+    import ffcx.options
+    try:
+        ffcx.compiler.compile_ufl_objects(entry.build(), options=ffcx.options.get_options({"scalar_type": scalar_type}),
+                                          namespace="dtypeprobe")
+        return True, None
+    except BaseException as ex:
+        if isinstance(ex, (KeyboardInterrupt, SystemExit)):
+            raise
+        return False, f"{type(ex).__name__}: {ex}"
+
+
+def check_dtype_probes(chk, d, scalar_type="complex128", rejected_types=("complex128", "complex64")):
+    from .corpus import Entry
+    ok_entries, _ = probe_entries()
+    res = {"ok_probes": check_dtype_certificates_quiet(chk, d, ok_entries, scalar_type), "probes": {}}
+
+    def certs(e, st):
+        cases = kernels.cases_for_entry(e, pipeline.default_options(scalar_type=st))[0]   # ASTs (the formatter is not run)
+        out = []
         for c in cases:
             p = parse_reply(d.ask(f"(dtypecert true {c.ast_sexp})"))
-            chk.case("dtype_probe", f"{name}:{scalar_type}")
-            if p and not p["cert"]:
-                fails.append({"kernel": c.name, "why": p["why"], "offending_statement": p["bad"]})
+            out.append({"kernel": c.name, "cert": bool(p and p["cert"]), "why": p["why"] if p else "?",
+                        "offending_statement": p["bad"] if p else None})
+        return out
+
+    # --- fixed: certified and numerically equal to complex arithmetic
+    for name, (key, what) in PROBES_FIXED.items():
+        e = Entry("dtype_" + name, _probe(name), tags=("cell", "complex"))
+        cs = certs(e, scalar_type)
         bad, info = numeric_witness(e, scalar_type, seed=chk.seed)
-        res["truncating"][name] = {"cert_fails": bool(fails), "numeric_bad": len(bad), "maxrel": info.get("maxrel")}
-        if fails:
-            payload = {"entry": name, "scalar_type": scalar_type, **fails[0]}
-            if bad:
-                payload.update(bad[0])
-            else:
-                payload["imag_insensitive"] = _imag_insensitive(e, scalar_type, chk.seed)
-                payload["oracle"] = {k: info.get(k) for k in ("compared", "maxrel", "unsupported", "error")}
-            chk.violation(key, what, payload)
-        elif bad:
-            # the kernel is numerically wrong on complex data but the certificate accepts it: the certificate is unsound
-            chk.disagree("dtype certificate accepts a kernel that differs from complex arithmetic",
-                         {"entry": name, "scalar_type": scalar_type, **bad[0]})
+        chk.case("dtype_probe", f"{name}:{scalar_type}")
+        fails = [c for c in cs if not c["cert"]]
+        res["probes"][name] = {"certified": not fails, "numeric_bad": len(bad), "maxrel": info.get("maxrel"), "error": info.get("error")}
+        if bad:
+            chk.violation(key, what, {"entry": name, "scalar_type": scalar_type, **(fails[0] if fails else {}), **bad[0]})
+        elif "error" in info:
+            chk.violation(key, what + f" — now fails to build: {info['error'][:200]}", {"entry": name, "scalar_type": scalar_type})
+        elif fails:
+            chk.disagree("dtype certificate fails on a kernel that equals complex arithmetic: " + fails[0]["why"],
+                         {"entry": name, "scalar_type": scalar_type, **fails[0]})
+    # --- rejected: no C may be emitted; the model must refuse the tree as well
+    for name, (key, what) in PROBES_REJECTED.items():
+        e = Entry("dtype_" + name, _probe(name), tags=("cell", "complex"))
+        for st in rejected_types:
+            chk.case("dtype_probe", f"{name}:{st}")
+            generated, err = _generates(e, st)
+            cs = certs(e, st)
+            fails = [c for c in cs if not c["cert"]]
+            res["probes"][f"{name}:{st}"] = {"rejected": not generated, "error": err, "model_refuses": bool(fails),
+                                             "why": fails[0]["why"] if fails else None}
+            if generated:
+                # accepted: the imaginary part is dropped in the emitted C — witness numerically / by insensitivity
+                payload = {"entry": name, "scalar_type": st, **(fails[0] if fails else {})}
+                bad, info = numeric_witness(e, st, seed=chk.seed)
+                if bad:
+                    payload.update(bad[0])
+                else:
+                    try:
+                        payload["imag_insensitive"] = _imag_insensitive(e, st, chk.seed)
+                    except Exception as ex:   # e.g. the emitted C does not even compile
+                        payload["imag_insensitive"] = f"{type(ex).__name__}: {str(ex)[:200]}"
+                    payload["oracle"] = {k: info.get(k) for k in ("compared", "maxrel", "unsupported", "error")}
+                chk.violation(key, what, payload)
+            elif _REFUSAL not in (err or ""):
+                chk.disagree("probe form is refused, but not by the formatter's complex-argument check", {"entry": name, "scalar_type": st, "error": err})
+            if bool(fails) != (not generated):
+                chk.disagree("dtype certificate and C formatter disagree on a function without a complex version",
+                             {"entry": name, "scalar_type": st, "formatter_rejects": not generated, "certificates": cs})
+    # --- known finding: nothing is truncated (certificate passes), the real function leaves its domain
     for name, (key, what) in PROBES_DOMAIN.items():
-        from .corpus import Entry
         e = Entry("dtype_" + name, _probe(name), tags=("cell", "complex"))
         s = check_dtype_certificates(chk, d, [e], (scalar_type,))   # must pass: nothing is truncated
         bad, info = numeric_witness(e, scalar_type, seed=chk.seed)
         chk.case("dtype_probe", f"{name}:{scalar_type}")
-        res["truncating"][name] = {"cert_fails": bool(s["failed"]), "numeric_bad": len(bad), "maxrel": info.get("maxrel")}
+        res["probes"][name] = {"certified": not s["failed"], "numeric_bad": len(bad), "maxrel": info.get("maxrel")}
         if bad and not s["failed"]:
             chk.violation(key, what, {"entry": name, "scalar_type": scalar_type, **bad[0]})
-    chk.notes["dtype_probes"] = res["truncating"]
+    chk.notes["dtype_probes"] = res["probes"]
     return res
 
 
@@ -530,6 +598,9 @@ def check_dtype_certificates_quiet(chk, d, entries, scalar_type):
         chk.case("dtype_probe_numeric", f"{e.name}:{scalar_type}" if info.get("compared") else None)
         if "error" in info:
             chk.notes.setdefault("dtype_probe_errors", []).append(f"{e.name}: {info['error'][:160]}")
+            if _REFUSAL in info["error"]:
+                chk.violation(f"c09:{e.name}:{scalar_type}:refused", "a complex-mode form whose math functions all have complex versions is refused "
+                              "by the C formatter", {"entry": e.name, "scalar_type": scalar_type, "error": info["error"][:300]})
         for b in bad[:1]:
             chk.violation(f"c09:{e.name}:{scalar_type}", f"{scalar_type} kernel differs from complex arithmetic on complex data (rel {b.get('relerr')})",
                           {"entry": e.name, "scalar_type": scalar_type, **b})
@@ -563,7 +634,7 @@ class _InterpDriver:
             self.p.kill()
 
 
-if __name__ == "__main__":  # python -m harness.dtype_checks [scratch-driver.lean] [--probes] [--table] [--corpus]
+if __name__ == "__main__":  # python -m harness.dtype_checks [scratch-driver.lean] [--seed=N] [--probes] [--table] [--corpus]
     import json
     import sys
     from . import corpus, lean
@@ -591,12 +662,16 @@ if __name__ == "__main__":  # python -m harness.dtype_checks [scratch-driver.lea
 
     chk = _Chk()
     files = [a for a in sys.argv[1:] if not a.startswith("--")]
-    flags = {a for a in sys.argv[1:] if a.startswith("--")} or {"--probes", "--table", "--corpus"}
+    for a in sys.argv[1:]:
+        if a.startswith("--seed="):
+            chk.seed = int(a.split("=", 1)[1])
+    flags = {a for a in sys.argv[1:] if a.startswith("--") and not a.startswith("--seed=")} or {"--probes", "--table", "--corpus"}
     d = _InterpDriver(files[0]) if files else lean.Driver("driver")
     try:
         if "--table" in flags:
             rows = check_math_table(chk, d)
-            print("math table rows:", len(rows), "latent:", chk.notes["dtype_math_table_latent_real_param_in_complex_table"])
+            print("math table rows:", len(rows), "refused:", len(chk.notes["dtype_math_table_refused_in_complex_mode"]),
+                  "wider:", chk.notes["dtype_math_table_wider_precision"])
         if "--corpus" in flags:
             ents = corpus.fixed() + corpus.expressions() + corpus.complex_forms()
             s = check_dtype_certificates(chk, d, ents, ("complex128", "float64"))
